@@ -155,6 +155,24 @@ class G:
     def suite_hist(self, nhist, steps):
         """C02: mutation histories, digest after every step"""
         r = self.r
+        # ranges over run chunks: the removed / flipped / added interval starts before the first run (or in an earlier chunk) and
+        # ends INSIDE the last run; starts inside a run and ends in a gap; covers whole runs
+        for k in (r.choice([0, 1, 3]), r.choice([700, 65534])):
+            base = k * CH
+            x = self.fresh()
+            self.emit("new %s" % x)
+            self.emit("addr %s %d %d" % (x, base + 4464, base + 14464))
+            self.emit("addr %s %d %d" % (x, base + 24464, base + 29464))
+            if k > 0:
+                self.emit("addr %s %d %d" % (x, base - 20000, base - 19000))
+            for (a, b) in [(base + 3464, base + 26464), (base - 30000 if k > 0 else 0, base + 27000), (base + 5000, base + 20000),
+                           (base + 100, base + 4464), (base + 14464, base + 24464), (base + 29463, base + 40000)]:
+                for op in ("remr", "flip", "addr"):
+                    y = self.fresh()
+                    self.emit("clone %s %s" % (y, x))
+                    self.emit("%s %s %d %d" % (op, y, max(0, a), b))
+            self.emit("dig %s" % x)
+            self.count("hist:run-range-episode")
         for _ in range(nhist):
             x = self.fresh()
             if r.random() < 0.5:
